@@ -15,6 +15,19 @@ Qed.
 Lemma length_upd : forall s x v, length (upd s x v) = length s.
 Proof. induction s as [|a s IH]; intros x v; destruct x; cbn; try reflexivity. now rewrite IH. Qed.
 
+(* a computed element slot lies inside the array *)
+Lemma idx_slot_in b lo n iv x : idx_slot b lo n iv = Ok x -> exists j, (j < n)%nat /\ x = (b + j)%nat.
+Proof.
+  unfold idx_slot. intros H. apply bind_ok in H as [z [_ H]].
+  destruct ((z <? lo) || (lo + Z.of_nat n - 1 <? z))%Z eqn:E; [discriminate|]. injection H as <-.
+  apply orb_false_iff in E as [E1 E2]. apply Z.ltb_ge in E1, E2.
+  exists (Z.to_nat (z - lo)). split; [lia | reflexivity].
+Qed.
+Lemma wr_idx_slot P b lo n ki i e j : wr P (SAssignIdx b lo n ki i e) = true -> (j < n)%nat -> P (b + j)%nat = true.
+Proof.
+  cbn [wr]. intros H Hj. apply (proj1 (forallb_forall _ _) H j). apply in_seq. lia.
+Qed.
+
 (* wr's local block checker is wr_block *)
 Lemma wb_local P : forall b,
   (fix wb (l : list stmt) : bool := match l with [] => true | s1 :: l' => wr P s1 && wb l' end) b = wr_block P b.
@@ -114,9 +127,13 @@ Section Frame.
 
   Lemma step_frame n depth s st r : wr P st = true -> step o ev ex n depth s st = Ok r -> agree s (fst r).
   Proof.
-    intros Hw H. destruct st as [x e|c t elifs el|sel brs el|x a b stp body|c body|body c| | |]; cbn [step] in H.
+    intros Hw H. destruct st as [x e|b0 lo n0 ki i e|c t elifs el|sel brs el|x a b stp body|c body|body c| | |]; cbn [step] in H.
     - cbn [wr] in Hw. apply bind_ok in H as [v [_ H]]. apply bind_ok in H as [s' [Hwr H]]. injection H as <-. cbn [fst].
       eapply write_agree; eassumption.
+    - apply bind_ok in H as [v [_ H]]. apply bind_ok in H as [iv [_ H]]. apply bind_ok in H as [x [Hx H]].
+      apply bind_ok in H as [s' [Hwr H]]. injection H as <-. cbn [fst].
+      destruct (idx_slot_in _ _ _ _ _ Hx) as [j [Hj ->]].
+      eapply write_agree; [exact (wr_idx_slot P b0 lo n0 ki i e j Hw Hj) | exact Hwr].
     - rewrite wr_if in Hw. apply andb_prop in Hw as [Hw Hel]. apply andb_prop in Hw as [Ht Helifs].
       apply bind_ok in H as [b [_ H]]. destruct b; [exact (run_block_frame _ _ _ _ Ht H) | exact (run_elifs_frame _ _ _ _ _ Helifs Hel H)].
     - rewrite wr_case in Hw. apply andb_prop in Hw as [Hbrs Hel].
@@ -157,6 +174,7 @@ Local Open Scope nat_scope.
 Section StmtInd.
   Variable Q : stmt -> Prop.
   Hypothesis Hassign : forall x e, Q (SAssign x e).
+  Hypothesis Hassignidx : forall b lo n ki i e, Q (SAssignIdx b lo n ki i e).
   Hypothesis Hif : forall c t elifs el, Forall Q t -> Forall (fun p => Forall Q (snd p)) elifs -> Forall Q el -> Q (SIf c t elifs el).
   Hypothesis Hcase : forall sel brs el, Forall (fun p => Forall Q (snd p)) brs -> Forall Q el -> Q (SCase sel brs el).
   Hypothesis Hfor : forall x a b c body, Forall Q body -> Q (SFor x a b c body).
@@ -170,6 +188,7 @@ Section StmtInd.
       match l with [] => Forall_nil Q | s1 :: l' => Forall_cons s1 (stmt_nested_ind s1) (fb l') end in
     match st with
     | SAssign x e => Hassign x e
+    | SAssignIdx b lo n ki i e => Hassignidx b lo n ki i e
     | SIf c t elifs el =>
         Hif c t elifs el (fb t)
           ((fix fe (l : list (expr * list stmt)) : Forall (fun p => Forall Q (snd p)) l :=
@@ -229,6 +248,8 @@ Proof.
     cbn [shift_block wr_block]. now rewrite (H H1), (IH H2). }
   apply (stmt_nested_ind (fun st => wr P st = true -> wr (shiftP b P) (shift_stmt b st) = true)).
   - intros x e H. cbn [wr] in *. cbn [shift_stmt wr]. now rewrite shiftP_at.
+  - intros b0 lo n ki i e H. cbn [wr] in H. cbn [shift_stmt wr]. apply forallb_forall. intros j Hj.
+    replace (b + b0 + j) with (b + (b0 + j)) by lia. rewrite shiftP_at. exact (proj1 (forallb_forall _ _) H j Hj).
   - intros c t elifs el Ht Helifs Hel H. rewrite wr_if in H. apply andb_prop in H as [H H3]. apply andb_prop in H as [H1 H2].
     rewrite shift_if, wr_if. rewrite (Hblock t Ht H1), (Hblock el Hel H3), andb_true_r. cbn [andb].
     clear H1 H3 Ht Hel. induction Helifs as [|[c' blk] l Hb _ IH]; [reflexivity|]. cbn [welifs] in H2. apply andb_prop in H2 as [H21 H22].
@@ -257,6 +278,7 @@ Proof.
   { induction 1 as [|st l H _ IH]; intros Hw; [reflexivity|]. cbn [wr_block] in *. apply andb_prop in Hw as [H1 H2]. now rewrite (H H1), (IH H2). }
   apply (stmt_nested_ind (fun st => wr P st = true -> wr Q st = true)).
   - intros x e H. cbn [wr] in *. auto.
+  - intros b0 lo n ki i e H. cbn [wr] in *. apply forallb_forall. intros j Hj. apply HPQ. exact (proj1 (forallb_forall _ _) H j Hj).
   - intros c t elifs el Ht Helifs Hel H. rewrite wr_if in *. apply andb_prop in H as [H H3]. apply andb_prop in H as [H1 H2].
     rewrite (Hblock t Ht H1), (Hblock el Hel H3), andb_true_r. cbn [andb].
     clear H1 H3 Ht Hel. induction Helifs as [|[c' blk] l Hb _ IH]; [reflexivity|]. cbn [welifs] in *. apply andb_prop in H2 as [H21 H22].
